@@ -128,6 +128,15 @@ def handleSkip (args : List String) (impl : String) : String × String :=
       if t > 255 then ("bad-op", "na") else
       (skipModel im (UInt8.ofNat t) b src, skipVerdict im (UInt8.ofNat t) b src impl)
     | _, _, _ => ("bad-op", "na")
+  | ["skipreuse", kind, _t1, _hex1, t2, hex2, src] =>
+    -- a decoder object used before (possibly failing part-way), then reset / released and re-obtained:
+    -- the second use must behave exactly like a fresh decoder on (t2, hex2)
+    let im := if kind.startsWith "bytes" then "tplbytes" else if kind.startsWith "bufiox" then "tplbufiox" else "tplreader"
+    match t2.toNat?, parseHex hex2, parseSrc src with
+    | some t, some b, some src =>
+      if t > 255 then ("bad-op", "na") else
+      (skipModel im (UInt8.ofNat t) b src, skipVerdict im (UInt8.ofNat t) b src impl)
+    | _, _, _ => ("bad-op", "na")
   | _ => ("bad-op", "na")
 
 end Verif
